@@ -1,9 +1,25 @@
 /- line-protocol handlers for C06 (closed-form boundaries, partial transpose, interpolation, CHA data) -/
 import Driver.Loop
 import NumqiModel.Boundary
+import NumqiModel.Dicke
+import NumqiModel.Gellmann
+import Driver.SymExtOps
 
 namespace Numqi.Driver.C06
 open Numqi Numqi.Boundary
+
+/-- `"x:y:re,im"` -/
+def parseTriple? (s : String) : Option (Nat × Nat × GInt) :=
+  match s.splitOn ":" with
+  | [x, y, v] => do
+    let x ← x.toNat?; let y ← y.toNat?; let v ← parseGInt? v
+    pure (x, y, v)
+  | _ => none
+
+def parseTriples? (s : String) : Option (List (Nat × Nat × GInt)) :=
+  if s = "" || s = "-" then some [] else (s.splitOn ";").mapM parseTriple?
+
+def ratTripleStr (e : Nat × Nat × Rat) : String := s!"{e.1}:{e.2.1}:{QI.ratStr e.2.2}"
 
 def fbits? (s : String) : Option Float := do
   let b ← s.toNat?
@@ -46,7 +62,7 @@ instance : Div QI := ⟨fun a b =>
 def qiOfNatInv (n : Nat) : QI := ⟨(1 : Rat) / (n : Int), 0⟩
 def qiHalf : QI := ⟨(1 : Rat) / 2, 0⟩
 
-def handle (args : List String) : String :=
+def handleOwn (args : List String) : String :=
   match args with
   | ["dmb", n, emin, emax, norm] => Id.run do
       let some n := fbits? n | return "bad-op"
@@ -114,6 +130,70 @@ def handle (args : List String) : String :=
       let M := mixture (K := k) (fun i => la.getD i.val 0) (fun i j => aa.getD (i.val * dA + j.val) 0)
         (fun i j => ba.getD (i.val * dB + j.val) 0)
       return ";".intercalate ((toFlat dA dB M).map qiStr)
+  | ["purebred", dimA, dimB, len, table, v] => Id.run do
+      -- `PureBosonicExt.forward`: `partial_trace_ABk_to_AB(manifold().reshape(dimA,-1), Bij)` (C17's model `Dicke.purebReduce`)
+      let some dimA := dimA.toNat? | return "bad-op"
+      let some dimB := dimB.toNat? | return "bad-op"
+      let some len := len.toNat? | return "bad-op"
+      let some tabs := (table.splitOn "|").mapM parseTriples? | return "bad-op"
+      let some v := (parseGIntList? v).map List.toArray | return "bad-op"
+      if tabs.length ≠ dimB * dimB || v.size ≠ dimA * len then return "bad-op"
+      if tabs.any (fun t => t.any fun e => e.1 ≥ len || e.2.1 ≥ len) then return "bad-op"
+      let tabA := tabs.toArray
+      let f := Dicke.purebReduce dimB len (fun q => tabA.getD q []) (fun i => v.getD i 0)
+      let N := dimA * dimB
+      return gintListStr ((List.range N).flatMap fun x => (List.range N).map fun y => f x y)
+  | ["asm", dimA, dimB, len, table, psi] => Id.run do
+      -- `partial_trace_ABk_to_AB(state, Bij)` on a coefficient matrix (`Dicke.assembleAB`)
+      let some dimA := dimA.toNat? | return "bad-op"
+      let some dimB := dimB.toNat? | return "bad-op"
+      let some len := len.toNat? | return "bad-op"
+      let some tabs := (table.splitOn "|").mapM parseTriples? | return "bad-op"
+      let some psi := (parseGIntList? psi).map List.toArray | return "bad-op"
+      if tabs.length ≠ dimB * dimB || psi.size ≠ dimA * len then return "bad-op"
+      if tabs.any (fun t => t.any fun e => e.1 ≥ len || e.2.1 ≥ len) then return "bad-op"
+      let tabA := tabs.toArray
+      let f := Dicke.assembleAB dimB (fun q => tabA.getD q []) (fun x y => psi.getD (x * len + y) 0)
+      let N := dimA * dimB
+      return gintListStr ((List.range N).flatMap fun x => (List.range N).map fun y => f x y)
+  | ["bij", n, d] => Id.run do
+      -- `get_partial_trace_ABk_to_AB_index(n, d)`: index triples with the squared value (`Dicke.bijTable`)
+      let some n := n.toNat? | return "bad-op"
+      let some d := d.toNat? | return "bad-op"
+      if d < 2 || n < 1 then return "error:assert"
+      return "|".intercalate ((List.range (d * d)).map fun q =>
+        ";".intercalate ((Dicke.bijTable n d (q / d) (q % d)).map ratTripleStr))
+  | ["dnum", n, d] => Id.run do
+      let some n := n.toNat? | return "bad-op"
+      let some d := d.toNat? | return "bad-op"
+      return toString (Dicke.dickeNumber n d)
+  | ["dist2", n, a, b] => Id.run do
+      -- `get_density_matrix_distance2(rho, sigma)` (C16's model `Gellmann.distance2`)
+      let some n := n.toNat? | return "bad-op"
+      let some a := parseGIntList? a | return "bad-op"
+      let some b := parseGIntList? b | return "bad-op"
+      if n = 0 || a.length ≠ n * n || b.length ≠ n * n then return "bad-op"
+      return qiStr (Gellmann.distance2 (Gellmann.floatScalars n) n (matOf n (a.map QI.ofGInt)) (matOf n (b.map QI.ofGInt)))
+  | ["bisect", x0, x1, rnum, rden, t] => Id.run do
+      -- `_ree_bisection_solve(hf, x0, x1, xtol, threshold)` for the step function `hf(x) = [x >= t]`, threshold 1/2;
+      -- `rnum/rden = (x1-x0)/xtol`
+      let some x0 := ratBits? x0 | return "bad-op"
+      let some x1 := ratBits? x1 | return "bad-op"
+      let some rnum := rnum.toNat? | return "bad-op"
+      let some rden := rden.toNat? | return "bad-op"
+      let some t := ratBits? t | return "bad-op"
+      if rden = 0 || ¬ (x0 < x1) then return "error:assert"
+      let m := bisectMaxiter rnum rden
+      let r := bisectLoop (fun x : Rat => if t ≤ x then 1 else 0) ((1 : Rat) / 2) m x0 x1 x0
+      return s!"{m} {ratStr r.2.2}"
   | _ => "bad-op"
+
+/-- the shared index layer of the irrep-block symmetric-extension path (`idx0213`, `sxrealign`, `extray`, `irreprdm`,
+`Driver/SymExtOps.lean`, model `NumqiModel/SymExt.lean`) is part of `get_ABk_symmetric_extension_boundary` / `is_ABk_symmetric_ext`,
+the two SDP routines of C06's hierarchy -/
+def handle (args : List String) : String :=
+  match Numqi.Driver.SymExtOps.handle? args with
+  | some r => r
+  | none => handleOwn args
 
 end Numqi.Driver.C06
